@@ -3,7 +3,8 @@
    depot -> customers -> same depot, every vehicle exactly one route, every customer once, pickup before delivery on
    the same route, load within the vehicle's capacity).  [canonical]: written with the documented conventions of the
    encoding -- the first vehicle is depot 0's ("First step is always the depot") and the return of the last vehicle is
-   not written (it is appended by the reward function).  The order of the other vehicles and all routes are free. *)
+   not written (it is charged by the reward function).  The order of the other vehicles and all routes are free.
+   The running code is [repaired] (defects recorded as fixed in known_findings.json); [as_is] statements are history. *)
 From Coq Require Import ZArith List Bool.
 From RL4CO Require Import Base.Num Base.EnvSig Spec.MultiDepotPD Env.MDCPDP Env.MDCPDPDefs Env.MDCPDPProofs Env.MDCPDPRefuted.
 Import ListNotations.
@@ -12,38 +13,41 @@ Open Scope Z_scope.
 (* every canonical solution is admitted action by action (equality cases included: a pickup that exactly fills the
    vehicle is offered), no proper prefix of it finishes the row, and the row is finished at its end *)
 Theorem C05_mdcpdp_mask_complete :
-  forall (F : mdfix) (i : md_inst) (acts : list nat),
-    md_wfb i = true -> md_good F i = true ->
+  forall (i : md_inst) (acts : list nat),
+    md_wfb i = true ->
     md_feasibleb (ndep i) (nloc i / 2) (vcap i) acts = true ->
     hd_error acts = Some 0%nat ->
     (exists psF r, parse (ndep i) acts = Some psF /\ openr psF = Some r) ->
-    adm (E:=MDCPDP exact F) i acts = true /\
-    (forall p q, acts = p ++ q -> q <> [] -> done (MDCPDP exact F) i (run (E:=MDCPDP exact F) i p) = false) /\
-    done (MDCPDP exact F) i (run (E:=MDCPDP exact F) i acts) = true.
-Proof. intros F i acts Hwf Hg H1 H2 H3. apply (md_mask_complete F i Hwf Hg acts). split; [exact H1|]. split; [exact H2 | exact H3]. Qed.
+    adm (E:=MDCPDP exact repaired) i acts = true /\
+    (forall p q, acts = p ++ q -> q <> [] -> done (MDCPDP exact repaired) i (run (E:=MDCPDP exact repaired) i p) = false) /\
+    done (MDCPDP exact repaired) i (run (E:=MDCPDP exact repaired) i acts) = true.
+Proof.
+  intros i acts Hwf H1 H2 H3. apply (md_mask_complete repaired i Hwf (repaired_good i) acts). split; [exact H1|]. split; [exact H2 | exact H3].
+Qed.
 Print Assumptions C05_mdcpdp_mask_complete.
 
-(* hence the optimum stays reachable: the episode that spells a canonical solution is admitted and is rewarded with
-   that solution's objective (all modes; with the return-leg repair or for the open problem) *)
+(* hence the optimum stays reachable: the episode that spells a canonical solution is admitted and is rewarded with that
+   solution's objective, in all four reward modes *)
 Theorem C05_mdcpdp_optimum_reachable :
-  forall (F : mdfix) (i : md_inst) (acts : list nat),
-    md_wfb i = true -> md_good F i = true -> solo i || fx_leg F = true -> fx_ret F = true \/ opn i = true -> (mode i < 3)%nat ->
-    canonical i acts ->
-    adm (E:=MDCPDP exact F) i acts = true /\ done (MDCPDP exact F) i (run (E:=MDCPDP exact F) i acts) = true /\
-    md_reward exact F i (run (E:=MDCPDP exact F) i acts) = spec_objective i acts.
-Proof. exact md_optimum_reachable. Qed.
+  forall (i : md_inst) (acts : list nat),
+    md_wfb i = true -> (mode i <= 3)%nat -> canonical i acts ->
+    adm (E:=MDCPDP exact repaired) i acts = true /\ done (MDCPDP exact repaired) i (run (E:=MDCPDP exact repaired) i acts) = true /\
+    md_reward exact repaired i (run (E:=MDCPDP exact repaired) i acts) = spec_objective i acts.
+Proof.
+  intros i acts Hwf Hm Hc. exact (md_optimum_reachable repaired i acts Hwf (repaired_good i) (repaired_solo i) (or_introl eq_refl) (repaired_mode_ok i Hm) Hc).
+Qed.
 Print Assumptions C05_mdcpdp_optimum_reachable.
 
-(* the code after the repairs: every instance *)
-Theorem C05_mdcpdp_mask_complete_repaired :
-  forall (i : md_inst) (acts : list nat),
-    md_wfb i = true -> canonical i acts ->
-    adm (E:=MDCPDP exact repaired) i acts = true /\ done (MDCPDP exact repaired) i (run (E:=MDCPDP exact repaired) i acts) = true.
-Proof. intros i acts Hwf Hc. destruct (md_mask_complete repaired i Hwf (repaired_good i) acts Hc) as (H1 & _ & H3). auto. Qed.
-Print Assumptions C05_mdcpdp_mask_complete_repaired.
+(* for any subset F of the repairs under [md_good F i] *)
+Theorem C05_mdcpdp_mask_complete_any_repair_set :
+  forall (F : mdfix) (i : md_inst) (acts : list nat),
+    md_wfb i = true -> md_good F i = true -> canonical i acts ->
+    adm (E:=MDCPDP exact F) i acts = true /\ live F i acts /\ done (MDCPDP exact F) i (run (E:=MDCPDP exact F) i acts) = true.
+Proof. intros F i acts Hwf Hg. exact (md_mask_complete F i Hwf Hg acts). Qed.
+Print Assumptions C05_mdcpdp_mask_complete_any_repair_set.
 
-(* the code as it is hides solutions as soon as there are two depots: vehicle 1 may carry 2 parcels (its capacity) but
-   the mask enforces depot 0's capacity 1 *)
+(* HISTORY ([as_is]): with two depots the mask hid solutions: vehicle 1 may carry 2 parcels (its capacity) but the
+   mask enforced depot 0's capacity 1 *)
 Theorem C05_mdcpdp_refuted_hidden_solution :
   exists i acts, md_wfb i = true /\ md_solvableb i = true /\ length (caps i) = ndep i /\ canonical i acts /\
                  adm (E:=MDCPDP exact as_is) i acts = false.
@@ -53,10 +57,12 @@ Proof.
 Qed.
 Print Assumptions C05_mdcpdp_refuted_hidden_solution.
 
-(* non-vacuity: a canonical solution whose first route fills vehicle 0 exactly (capacity 2, two pickups on board) *)
+(* non-vacuity: a canonical solution whose first route fills vehicle 0 exactly (capacity 2, two pickups on board); the
+   formerly hidden solution is admitted by the current code *)
 Example C05_mdcpdp_nonvacuous :
   let i := inst 2 4 [2; 1] (unit_dist 6) 0 in
   let acts := [0; 2; 3; 4; 5; 0; 1]%nat in
   md_wfb i = true /\ spec_feasibleb i acts = true /\ hd_error acts = Some 0%nat /\
-  (exists r, option_map openr (parse (ndep i) acts) = Some (Some r)) /\ adm (E:=MDCPDP exact repaired) i acts = true.
+  (exists r, option_map openr (parse (ndep i) acts) = Some (Some r)) /\ adm (E:=MDCPDP exact repaired) i acts = true /\
+  adm (E:=MDCPDP exact repaired) (inst 2 4 [1; 2] (unit_dist 6) 0) [0; 0; 1; 2; 3; 4; 5]%nat = true.
 Proof. vm_compute. repeat split; try reflexivity. eexists. reflexivity. Qed.
